@@ -575,6 +575,20 @@ def core_specs():
         bounds=bx, tol=True,
         rows=[dict(e=[['x', 0, [1, 1]], ['xz', 0, 0, [[1, 0], [0, 1]]]], sense='le', rhs=4)],
         obj=dict(kind='minmax', set=0, e=[['x', 0, [-1, -1]], ['xz', 0, 0, [[0.5, 0], [0, 0.5]]]]))
+    # 20b. intersections of two cone constraints in one set, either order (the auxiliary columns of the first block lie between
+    #      two cone blocks of the dualised set)
+    add('static-sumsqr-and-ball', dv=[dict(shape=[2])], rv=[[2]], sets=[[dict(t='sumsqr', r=1.0), dict(t='norm', p=2, r=0.8)]],
+        bounds=bx,
+        rows=[dict(e=[['x', 0, [1, 1]], ['xz', 0, 0, [[1, 0], [0, 1]]]], sense='le', rhs=4)],
+        obj=dict(kind='minmax', set=0, e=[['x', 0, [-1, -1]], ['z', 0, [1, -1]]]))
+    add('static-ball-and-sumsqr', dv=[dict(shape=[2])], rv=[[2]], sets=[[dict(t='norm', p=2, r=0.8), dict(t='sumsqr', r=1.0)]],
+        bounds=bx,
+        rows=[dict(e=[['x', 0, [1, 1]], ['xz', 0, 0, [[1, 0], [0, 1]]]], sense='le', rhs=4)],
+        obj=dict(kind='minmax', set=0, e=[['x', 0, [-1, -1]], ['z', 0, [1, -1]]]))
+    add('static-sumsqr-and-ball-loose', dv=[dict(shape=[2])], rv=[[2]], sets=[[dict(t='sumsqr', r=0.25), dict(t='norm', p=2, r=0.8)]],
+        bounds=bx,
+        rows=[dict(e=[['x', 0, [1, 1]], ['xz', 0, 0, [[1, 0], [0, 1]]]], sense='le', rhs=4)],
+        obj=dict(kind='minmax', set=0, e=[['x', 0, [-1, -1]], ['z', 0, [1, -1]]]))
     # 21. ball intersected with a box (direct NRA, dim 2)
     add('static-ball-box', dv=[dict(shape=[2])], rv=[[2]], sets=[[dict(t='norm', p=2, r=1), *box(-0.5, 1)]],
         bounds=bx,
